@@ -2,6 +2,7 @@ package c20
 
 import (
 	"fmt"
+	"strings"
 
 	"go.lstv.dev/util/internal/vsim/core"
 )
@@ -39,7 +40,7 @@ func (Prop) Describe() core.Description {
 		Notes: map[string]string{
 			"sim_time_note": "C20 has no clock in it; sim_time_ns is 0 by construction",
 		},
-		RequiredProbesQuick: []string{"panic_recovered_call", "panic_recovered_hook", "error_with_data", "wrong_data_only", "inapplicable_faulty", "goexit_env", "invalid_regexp", "lacking_interface", "lacking_interface_all_inapplicable", "typehelper_used", "nil_receiver", "nil_value_unmarshal", "nil_interface_value", "long_list", "before_hook_adjusts_case", "asymmetric_typehelper_wildcard", "cloning_typehelper", "emptied_not_nil", "listed_nil_value", "second_concrete_type", "listed_empty_data", "json_equivalent_wrong_data", "lenient_equal_method", "panic_value_with_uncallable_error_method", "nil_interface_value_first_case", "listed_nil_input", "pointer_receiver_value_type"},
+		RequiredProbesQuick: []string{"panic_recovered_call", "panic_recovered_hook", "error_with_data", "wrong_data_only", "inapplicable_faulty", "goexit_env", "invalid_regexp", "lacking_interface", "lacking_interface_all_inapplicable", "typehelper_used", "nil_receiver", "nil_value_unmarshal", "nil_interface_value", "long_list", "before_hook_adjusts_case", "asymmetric_typehelper_wildcard", "cloning_typehelper", "emptied_not_nil", "listed_nil_value", "second_concrete_type", "listed_empty_data", "json_equivalent_wrong_data", "lenient_equal_method", "panic_value_with_uncallable_error_method", "nil_interface_value_first_case", "listed_nil_input", "pointer_receiver_value_type", "before_hook_installs_or_clears_predicate", "big_payload"},
 	}
 }
 
@@ -86,7 +87,13 @@ func enumH1() int    { return 6 * 2 * 2 * nBeh }
 func enumH2() int    { return 6 * 2 * 3 * len(badErrPreds) * nPos }
 func enumH3() int    { return 6 * 2 * 2 * 2 }
 func enumH4() int    { return 2 * nBeh * len(nilDataPreds) * nPos * 2 }
-func enumWave7() int { return enumH1() + enumH2() + enumH3() + enumH4() }
+func enumWave7() int { return enumH1() + enumH2() + enumH3() + enumH4() + enumH5() + enumH6() }
+
+// big payloads: 6 helpers x {V, *P} x ways of being wrong x {right, wrong}; hooks that install
+// or clear the predicate of their own case: 6 helpers x {V, *P} x behaviour x {none, AnyError,
+// HasPrefix(met), Error(unmet)} x position
+func enumH5() int { return 6 * 2 * numWrong * 2 }
+func enumH6() int { return 6 * 2 * nBeh * len(badErrPreds) * nPos }
 
 func wave7Spec(r int) (ls listSpec, ok bool) {
 	switch {
@@ -143,6 +150,35 @@ func wave7Spec(r int) (ls listSpec, ok bool) {
 		if long {
 			ls.cases = []caseSpec{c, plain, plain}
 		}
+	case r >= enumH1()+enumH2()+enumH3()+enumH4()+enumH5():
+		r -= enumH1() + enumH2() + enumH3() + enumH4() + enumH5()
+		c := caseSpec{payload: "x", adjust: true, adjustPred: true}
+		pos := r % nPos
+		r /= nPos
+		c.pred = badErrPreds[r%len(badErrPreds)]
+		r /= len(badErrPreds)
+		c.beh = r % nBeh
+		r /= nBeh
+		ls.shape = r % 2
+		r /= 2
+		ls.enc, ls.dir = r/2, r%2
+		if c.beh == bPanicAfterSet && ls.dir == dirMarshal {
+			return ls, false
+		}
+		ls.cases = place(c, pos)
+	case r >= enumH1()+enumH2()+enumH3()+enumH4():
+		r -= enumH1() + enumH2() + enumH3() + enumH4()
+		c := caseSpec{payload: bigPayload}
+		if r%2 == 1 {
+			c.beh = bWrong
+		}
+		r /= 2
+		c.wrongKind = r % numWrong
+		r /= numWrong
+		ls.shape = r % 2
+		r /= 2
+		ls.enc, ls.dir = r/2, r%2
+		ls.cases = []caseSpec{c}
 	default:
 		r -= enumH1() + enumH2() + enumH3()
 		c := caseSpec{payload: "x", nilData: true}
@@ -466,7 +502,7 @@ func classOf(ls listSpec, l *listRun) (nontrivial bool, classes []uint64) {
 		if l.failures[i] > 0 {
 			verdict = 1
 		}
-		h.Add(uint64(ls.enc*2+ls.dir)<<40 | uint64(ls.shape)<<32 | uint64(pos)<<28 | uint64(c.constraint)<<24 | uint64(c.beh)<<16 | uint64(c.before)<<12 | uint64(c.after)<<8 | uint64(c.pred)<<4 | uint64(verdict)<<1 | uint64(ls.typeHelper)<<50 | b2u(c.adjust)<<46 | uint64(c.wrongKind)<<52 | b2u(c.wildcard)<<47 | b2u(c.nilExpect)<<48 | b2u(c.other)<<49 | b2u(c.emptyData)<<55 | b2u(c.nilValue)<<44 | b2u(c.nilIface)<<45 | b2u(c.nilData)<<56)
+		h.Add(uint64(ls.enc*2+ls.dir)<<40 | uint64(ls.shape)<<32 | uint64(pos)<<28 | uint64(c.constraint)<<24 | uint64(c.beh)<<16 | uint64(c.before)<<12 | uint64(c.after)<<8 | uint64(c.pred)<<4 | uint64(verdict)<<1 | uint64(ls.typeHelper)<<50 | b2u(c.adjust)<<46 | uint64(c.wrongKind)<<52 | b2u(c.wildcard)<<47 | b2u(c.nilExpect)<<48 | b2u(c.other)<<49 | b2u(c.emptyData)<<55 | b2u(c.nilValue)<<44 | b2u(c.nilIface)<<45 | b2u(c.nilData)<<56 | b2u(c.adjustPred)<<57 | b2u(len(c.payload) > 1000)<<58)
 		classes = append(classes, uint64(h))
 	}
 	if !ls.hasInterface() && len(ls.cases) > 0 {
@@ -597,6 +633,12 @@ func probes(res *core.Result, ls listSpec, l *listRun) {
 		if c.nilData {
 			res.Probes.Inc("listed_nil_input")
 		}
+		if c.adjustPred {
+			res.Probes.Inc("before_hook_installs_or_clears_predicate")
+		}
+		if len(c.payload) > 1000 {
+			res.Probes.Inc("big_payload")
+		}
 		if c.beh == bPanicBadError {
 			res.Probes.Inc("panic_value_with_uncallable_error_method")
 			res.Faults.Inc("call_panic_uncallable_error")
@@ -619,7 +661,7 @@ func finish(res *core.Result, ls listSpec, o core.RunOpts, extraTrace []string) 
 	h := core.NewHash()
 	h.Add(uint64(ls.enc*2+ls.dir)<<8 | uint64(ls.shape)<<4 | b2u(ls.goexit)<<1 | uint64(ls.typeHelper)<<2)
 	for _, c := range ls.cases {
-		h.Add(uint64(c.constraint)<<24 | uint64(c.beh)<<16 | uint64(c.before)<<12 | uint64(c.after)<<8 | uint64(c.pred) | b2u(c.nilValue)<<28 | b2u(c.nilIface)<<29 | b2u(c.adjust)<<30 | uint64(c.wrongKind)<<32 | b2u(c.wildcard)<<31 | b2u(c.nilExpect)<<36 | b2u(c.other)<<37 | b2u(c.emptyData)<<38 | b2u(c.nilData)<<39)
+		h.Add(uint64(c.constraint)<<24 | uint64(c.beh)<<16 | uint64(c.before)<<12 | uint64(c.after)<<8 | uint64(c.pred) | b2u(c.nilValue)<<28 | b2u(c.nilIface)<<29 | b2u(c.adjust)<<30 | uint64(c.wrongKind)<<32 | b2u(c.wildcard)<<31 | b2u(c.nilExpect)<<36 | b2u(c.other)<<37 | b2u(c.emptyData)<<38 | b2u(c.nilData)<<39 | b2u(c.adjustPred)<<40 | b2u(len(c.payload) > 1000)<<41)
 	}
 	for _, e := range l.events {
 		h.AddString(e.what)
@@ -673,6 +715,9 @@ func (Prop) RunEnum(i int, o core.RunOpts) *core.Result {
 	return finish(res, ls, o, []string{fmt.Sprintf("enumeration index %d", i)})
 }
 
+// bigPayload is 70 400 bytes long.
+var bigPayload = strings.Repeat("0123456789abcdef", 4400)
+
 var shapeWeights = [...]int{shV, shV, shV, shP, shP, shP, shOnlyM, shOnlyU, shNone, shIface, shIface, shPV, shPV, shStr, shStr, shBytes, shBytes, shMap, shMap, shNum, shNum, shByte, shPval, shPval}
 
 func genCase(t *core.Tape) caseSpec {
@@ -701,7 +746,11 @@ func genCase(t *core.Tape) caseSpec {
 	c.other = t.Bool(1, 3)
 	c.emptyData = t.Bool(1, 8)
 	c.nilData = t.Bool(1, 8)
+	c.adjustPred = t.Bool(1, 2)
 	c.payload = [...]string{"p", "", "payload with spaces", "{\"k\":1}", "\x00\xff", "~", "line\n", "100% %s"}[t.Choose(8)]
+	if t.Bool(1, 48) {
+		c.payload = bigPayload // well beyond any buffer or chunk size a comparison might use
+	}
 	return c
 }
 
